@@ -298,7 +298,11 @@ def run_case(sh, env, outcome, msg_class, vflags, listener, ansi, quiet=False, l
             fn()
         log.behaviour = behaviour
 
+    config_debug = (getattr(env, "case_no", 0) % 7 == 3)
+
     def tweak(cfg):
+        if config_debug:
+            cfg.debug()  # debug verbosity asked for by the configuration instead of -vvv
         if listener == "none":
             return
         if listener == "passes":
@@ -333,7 +337,7 @@ def run_case(sh, env, outcome, msg_class, vflags, listener, ansi, quiet=False, l
     raw = env.ArgvArgs(["prog"] + tokens)
     out, err = env.RecStream(ansi), env.RecStream(ansi)
     case = {"outcome": list(outcome), "message": msg_class, "flags": list(vflags), "listener": listener, "ansi": ansi, "quiet": quiet, "tokens": tokens, "style": style,
-            "handler_style": log.styles.get("alpha beta")}
+            "handler_style": log.styles.get("alpha beta"), "config_debug": config_debug}
     nontrivial = not (outcome[0] == "result" and outcome[1] in ("None", "0"))
     sh.tag("handler_style", str(log.styles.get("alpha beta")))
     sh.case((outcome, msg_class, tuple(vflags), listener, ansi, quiet, style), nontrivial)
@@ -409,12 +413,30 @@ def run_reuse(sh, env, rng, n):
     second_lines = [["alpha", "beta", "t2"], ["alpha", "beta", "t3", "r1", "--flag"], ["gamma"], ["alpha", "beta", "t4", "--version"], ["gamma", "--", "-q"]]
     for _ in range(n):
         log = T.HandlerLog()
-        app, cfg = T.build_app(TREE, env.api, log, default_config=True, name="app")
+        # in a third of the histories pre-handle listeners are registered: a failing one at priority 0 before the first run
+        # and a handling one (status 75) at priority 10 just before the last run - the later, higher one must run first
+        late_listener = rng.random() < 0.33
+
+        def failing(event, name, d):
+            raise RuntimeError("the low-priority listener ran")
+
+        def handling(event, name, d):
+            event.handled(True)
+            event.set_status_code(75)
+            event.stop_propagation()
+
+        def with_first(cfg):
+            if late_listener:
+                cfg.add_event_listener(env.PRE_HANDLE, failing, 0)
+
+        app, cfg = T.build_app(TREE, env.api, log, default_config=True, name="app", tweak=with_first)
         hist = [rng.choice(first_lines) for _ in range(rng.randint(1, 2))] + [rng.choice(second_lines)]
-        case = {"kind": "reuse", "lines": hist}
-        sh.case(("reuse", tuple(tuple(l) for l in hist)), True)
+        case = {"kind": "reuse", "lines": hist, "listener_added_before_last_run": late_listener}
+        sh.case(("reuse", tuple(tuple(l) for l in hist), late_listener), True)
         got = None
-        for line in hist:
+        for k, line in enumerate(hist):
+            if late_listener and k == len(hist) - 1:
+                cfg.add_event_listener(env.PRE_HANDLE, handling, 10)
             log.calls = []
             out, err = env.RecStream(False), env.RecStream(False)
             try:
@@ -427,7 +449,13 @@ def run_reuse(sh, env, rng, n):
         if st is None:
             continue
         flog = T.HandlerLog()
-        fapp, _ = T.build_app(TREE, env.api, flog, default_config=True, name="app")
+
+        def with_both(cfg):
+            if late_listener:
+                cfg.add_event_listener(env.PRE_HANDLE, failing, 0)
+                cfg.add_event_listener(env.PRE_HANDLE, handling, 10)
+
+        fapp, _ = T.build_app(TREE, env.api, flog, default_config=True, name="app", tweak=with_both)
         out, err = env.RecStream(False), env.RecStream(False)
         fst = fapp.run(env.ArgvArgs(["prog"] + hist[-1]), env.StringInputStream(""), out, err)
         want = (fst, [(c["command"], c["arguments"], c["options"]) for c in flog.calls], out.fetch())
